@@ -71,6 +71,11 @@ def run(ctx):
     pp = ctx.path("publish.ndjson")
     vlib.run_bin("fault_driver", ["publish", "--out", pp], timeout=600)
     ev += vlib.read_ndjson(pp)
+    # every transient fault in a write / flush / terminate of a doc-store file with many blocks per segment
+    # (the compressor thread's errors must reach the commit whatever block they hit)
+    sp = ctx.path("storeblocks.ndjson")
+    vlib.run_bin("fault_driver", ["storeblocks", "--out", sp], timeout=600)
+    ev += vlib.read_ndjson(sp)
     pairs = [(a, r) for a, r in zip(api_runs(ev), vlib.split_runs(ev)) if any(e["ev"] != "summary" for e in a)]
     runs = [a for a, _ in pairs]
     raws = [r for _, r in pairs]     # every storage operation and hook event of the run: kept next to a rejected run
